@@ -282,8 +282,14 @@ func genForward(ctx *Ctx, prop string) {
 				rbody[2], rbody[3] = 0x7f, byte(r.Intn(200))
 			}
 		}
+		// one request in six is first answered with a read timeout the policy retries on the same host:
+		// every copy of the request that reaches a backend must be the same bytes
+		retried := kind != "prepare" && r.Intn(6) == 0
 		if kind == "prepare" {
 			be.PrepareErr[hexOf(md5Of(msg.(*message.Prepare).Query))] = []fb.Outcome{{Kind: fb.RawReply, RawFlags: rflags, RawOpcode: ropcode, RawBody: rbody}}
+		} else if retried {
+			be.SetScript(tok, fb.Outcome{Kind: fb.ErrMsg, Msg: &message.ReadTimeout{ErrorMessage: "scripted", Consistency: primitive.ConsistencyLevelQuorum, Received: 2, BlockFor: 2, DataPresent: false}},
+				fb.Outcome{Kind: fb.RawReply, RawFlags: rflags, RawOpcode: ropcode, RawBody: rbody})
 		} else {
 			be.SetScript(tok, fb.Outcome{Kind: fb.RawReply, RawFlags: rflags, RawOpcode: ropcode, RawBody: rbody})
 		}
@@ -291,25 +297,38 @@ func genForward(ctx *Ctx, prop string) {
 		got, _ := cl.Next(5 * time.Second)
 		// what the backend saw
 		var rec *fb.Rec
+		var earlier []fb.Rec // the attempts before the last one (a retried request)
 		deadline := time.Now().Add(700 * time.Millisecond)
 		for rec == nil {
+			earlier = nil
 			for _, x := range be.Snapshot() {
 				if x.Token == tok && (x.Kind == "query" || x.Kind == "execute" || x.Kind == "batch" || x.Kind == "prepare") {
+					if rec != nil {
+						earlier = append(earlier, *rec)
+					}
 					xx := x
 					rec = &xx
 				}
 			}
-			if rec != nil || time.Now().After(deadline) {
+			if (rec != nil && (!retried || len(earlier) > 0)) || time.Now().After(deadline) {
 				break
 			}
+			rec = nil
 			time.Sleep(5 * time.Millisecond)
 		}
 		be.ResetLog()
+		if retried {
+			ctx.Count(fmt.Sprintf("retried-on-same-host:attempts-seen-%d", len(earlier)+1))
+		}
 		note := fmt.Sprintf("%s:%s:v%d:%s:flags%02x", p.name, kind, v, comp, byte(flags))
 		ctx.Count(fmt.Sprintf("%s:%s:v%d:%s", p.name, kind, v, comp))
 		ctx.Count(fmt.Sprintf("reqflags:%02x", byte(flags)))
 		if prop == "C03" {
 			if !overrides {
+				for _, e := range earlier {
+					bs := int64(uint16(e.Raw[2])<<8 | uint16(e.Raw[3]))
+					ctx.Emit(hv.L(hv.B(sent), hv.I(bs)), hv.L(hv.B(e.Raw)), "request-first-attempt:"+note)
+				}
 				if rec != nil {
 					bs := int64(uint16(rec.Raw[2])<<8 | uint16(rec.Raw[3]))
 					ctx.Emit(hv.L(hv.B(sent), hv.I(bs)), hv.L(hv.B(rec.Raw)), "request:"+note)
@@ -341,6 +360,28 @@ func genForward(ctx *Ctx, prop string) {
 			lv = append(lv, hv.I(int64(c)))
 		}
 		in := hv.L(hv.I(int64(v)), hv.I(int64(flags.Remove(primitive.HeaderFlagCompressed))), hv.I(int64(msg.GetOpCode())), hv.B(logical), hv.Bool(isSelect), hv.L(lv...), hv.I(int64(p.ovr)))
+		observe := func(rec *fb.Rec) hv.V {
+			if bytes.Equal(rec.Raw[:2], sent[:2]) && bytes.Equal(rec.Raw[4:], sent[4:]) {
+				return hv.L(hv.I(0))
+			}
+			body := rec.Raw[9:]
+			lb := body
+			okFrame := rec.Raw[0] == sent[0] && rec.Raw[1] == sent[1] && rec.Raw[4] == sent[4]
+			if rec.Raw[1]&0x01 != 0 {
+				var err error
+				lb, err = decompress(comp, body)
+				if err != nil {
+					okFrame = false
+				}
+			}
+			if okFrame {
+				return hv.L(hv.I(1), hv.B(lb), hv.I(int64(len(lb))))
+			}
+			return hv.L(hv.I(3))
+		}
+		for i := range earlier {
+			ctx.Emit(in, observe(&earlier[i]), "first-attempt-of-a-retried-request:"+note)
+		}
 		var out hv.V
 		switch {
 		case rec == nil:
@@ -358,24 +399,12 @@ func genForward(ctx *Ctx, prop string) {
 			// the backend may be stuck inside a half-read frame: start afresh
 			be.DropConns(1)
 			time.Sleep(300 * time.Millisecond)
-		case bytes.Equal(rec.Raw[:2], sent[:2]) && bytes.Equal(rec.Raw[4:], sent[4:]):
-			out = hv.L(hv.I(0))
 		default:
-			body := rec.Raw[9:]
-			lb := body
-			okFrame := rec.Raw[0] == sent[0] && rec.Raw[1] == sent[1] && rec.Raw[4] == sent[4]
-			if rec.Raw[1]&0x01 != 0 {
-				var err error
-				lb, err = decompress(comp, body)
-				if err != nil {
-					okFrame = false
-				}
-			}
-			if okFrame {
-				out = hv.L(hv.I(1), hv.B(lb), hv.I(int64(len(lb))))
-			} else {
-				out = hv.L(hv.I(3))
-			}
+			out = observe(rec)
+		}
+		if retried && rec != nil && len(earlier) == 0 {
+			out = hv.L(hv.I(3)) // the retried request reached the backend only once
+			note = "retried-request-seen-once:" + note
 		}
 		if overrides {
 			ctx.Count("override-applies")
